@@ -502,8 +502,10 @@ def findKey : List Slot → Nat → List Nat → Option Hit
     | some a => some ⟨i, a, true⟩
     | none => findKey ss (i + 1) k
 
-/-- decimal text with optional sign → two's complement pattern of width `w`, range-checked (`strconv.ParseInt/ParseUint`,
-`iter.ReadInt64/ReadUint64`) -/
+/-- decimal text of a JSON STRING → two's complement pattern of width `w`: `strconv.ParseInt(s, 10, w)` (signed: one optional
+`+` or `-`, then `ParseUint`) / `strconv.ParseUint(s, 10, w)` (no sign at all), digits only (base 10: no underscores, no prefix;
+leading zeros are fine), exact range check — the `StringValue` branch of `json.ReadInt32/ReadUint32/ReadInt64/ReadUint64`
+(`pdata/internal/json/number.go`) -/
 def parseInt (T : Txt) (signed : Bool) (w : Nat) (t : List Nat) : Option Nat :=
   match t with
   | 45 :: ds =>
@@ -511,9 +513,53 @@ def parseInt (T : Txt) (signed : Bool) (w : Nat) (t : List Nat) : Option Nat :=
     match T.undec ds with
     | some n => if n ≤ 2 ^ (w - 1) then some ((2 ^ w - n) % 2 ^ w) else none
     | none => none
+  | 43 :: ds =>
+    if !signed then none else
+    match T.undec ds with
+    | some n => if n < 2 ^ (w - 1) then some n else none
+    | none => none
   | ds =>
     match T.undec ds with
     | some n => if n < (if signed then 2 ^ (w - 1) else 2 ^ w) then some n else none
+    | none => none
+
+/-- the digit loop of jsoniter's `readUint64` / `readUint32` (v1.1.12, `iter_int.go`) after the first digit: every character of
+the token must be a digit (`.` → "can not decode float as int"; any other character is left over for the enclosing
+`ReadObjectCB`, which then fails — either way the document is rejected), and the overflow test is the LIBRARY's:
+only when `value > MaxUint/10 - 1`, and then only `value*10 + d (mod 2^w) < value` — a product that wraps around to
+a value that is not smaller goes unnoticed (`27670116110564327420` reads as `9223372036854775804`). The unrolled
+nine-digit fast path computes the same value (nine digits never overflow 32 bits). -/
+def jiterDigits (w : Nat) : Nat → List Nat → Option Nat
+  | v, [] => some v
+  | v, c :: cs =>
+    if 48 ≤ c ∧ c ≤ 57 then
+      if v > (2 ^ w - 1) / 10 - 1 then
+        let v2 := (v * 10 + (c - 48)) % 2 ^ w
+        if v2 < v then none else jiterDigits w v2 cs
+      else jiterDigits w (v * 10 + (c - 48)) cs
+    else none
+
+/-- `readUint64` / `readUint32` on the text of a number token: a leading `0` ends the number at once (whatever follows is
+left over: rejected), the first character must be a digit (`-` is "unexpected character") -/
+def jiterUint (w : Nat) : List Nat → Option Nat
+  | [] => none
+  | [48] => some 0
+  | 48 :: _ => none
+  | c :: cs => if 49 ≤ c ∧ c ≤ 57 then jiterDigits w (c - 48) cs else none
+
+/-- text of a JSON NUMBER token → two's complement pattern of width `w`: `iter.ReadInt64/ReadInt32` (`-` then `readUint`,
+`val > MaxInt+1` / `val > MaxInt` is "overflow") and `iter.ReadUint64/ReadUint32` — the `NumberValue` branch of
+`json.ReadInt32/…/ReadUint64`, and what `ReadEnumValue` and the `sint32` fields call directly -/
+def parseNum (signed : Bool) (w : Nat) (t : List Nat) : Option Nat :=
+  match t with
+  | 45 :: ds =>
+    if !signed then none else
+    match jiterUint w ds with
+    | some v => if v > 2 ^ (w - 1) then none else some ((2 ^ w - v) % 2 ^ w)
+    | none => none
+  | ds =>
+    match jiterUint w ds with
+    | some v => if signed && decide (v ≥ 2 ^ (w - 1)) then none else some v
     | none => none
 
 def enumByName (S : Schema) (e : Nat) (name : List Nat) : Option Nat :=
@@ -528,22 +574,26 @@ def stripQuotes (b : List Nat) : List Nat :=
 def readLeaf (S : Schema) (T : Txt) (ty : Ty) (j : Json) : Option Val :=
   match ty with
   | .u64 | .fixed64 => match j with
-    | .num t | .str t => (parseInt T false 64 t).map .num
+    | .num t => (parseNum false 64 t).map .num
+    | .str t => (parseInt T false 64 t).map .num
     | _ => none
   | .i64 | .sfixed64 => match j with
-    | .num t | .str t => (parseInt T true 64 t).map .num
+    | .num t => (parseNum true 64 t).map .num
+    | .str t => (parseInt T true 64 t).map .num
     | _ => none
   | .u32 | .fixed32 => match j with
-    | .num t | .str t => (parseInt T false 32 t).map .num
+    | .num t => (parseNum false 32 t).map .num
+    | .str t => (parseInt T false 32 t).map .num
     | _ => none
   | .i32 => match j with
-    | .num t | .str t => (parseInt T true 32 t).map .num
+    | .num t => (parseNum true 32 t).map .num
+    | .str t => (parseInt T true 32 t).map .num
     | _ => none
   | .s32 => match j with      -- `scale`, `offset`: read with `iter.ReadInt32()` directly (numbers only)
-    | .num t => (parseInt T true 32 t).map .num
+    | .num t => (parseNum true 32 t).map .num
     | _ => none
   | .enum e => match j with
-    | .num t => (parseInt T true 32 t).map .num
+    | .num t => (parseNum true 32 t).map .num
     | .str t => (enumByName S e t).map .num
     | _ => none
   | .bool => match j with
